@@ -322,7 +322,8 @@ theorem retainPass_independent {g : Graph} {s : Nat} {sc : Scope} (hs : g.scopes
     (tgt : Path → RName) :
     ∀ (ps : List Path) (done : List RName),
       (∀ p ∈ ps, ∃ r, resolveModulePart g s p = .ok r ∧ r.rest = [] ∧ r.decl.name = tgt p) →
-      (∀ p ∈ ps, ∀ x, firstSeg p = some x → ∀ t ∈ done ++ ps.map tgt, x ≠ t.ident) →
+      (∀ p ∈ ps, ∀ x, firstSeg p = some x → ∀ t ∈ done, x ≠ t.ident) →
+      (∀ p ∈ ps, ∀ q ∈ ps, p ≠ q → firstSeg p ≠ some (tgt q).ident) →
       ((done ++ ps.map tgt).map (·.ident)).Nodup →
       (∀ t ∈ done ++ ps.map tgt, sc.imports.lookup t.ident = none) →
       retainPass s (addImports g s done) ps = .ok (addImports g s (done ++ ps.map tgt), []) := by
@@ -330,14 +331,14 @@ theorem retainPass_independent {g : Graph} {s : Nat} {sc : Scope} (hs : g.scopes
   induction ps with
   | nil => intro done _ _ _ _; simp [retainPass]
   | cons p ps ih =>
-    intro done hres hind hnd hfresh
+    intro done hres hind hpair hnd hfresh
     obtain ⟨r, hr, hrest, hname⟩ := hres p List.mem_cons_self
     -- the path means in the current graph what it means in `g`
     have hframe : resolveModulePart (addImports g s done) s p = .ok r := by
       rw [resolveModulePart_sameExcept (sameOn_addImports hs done) s p]
       · exact hr
       · intro x hx t ht
-        exact hind p List.mem_cons_self x hx t (List.mem_append_left _ ht)
+        exact hind p List.mem_cons_self x hx t ht
     have hfr : (sc.imports ++ entries done).lookup (tgt p).ident = none := by
       apply lookup_append_none
       · exact hfresh (tgt p) (by simp)
@@ -354,17 +355,23 @@ theorem retainPass_independent {g : Graph} {s : Nat} {sc : Scope} (hs : g.scopes
     unfold retainPass
     rw [hone]
     simp only
+    -- the aliases are pairwise distinct, so no later path is `p` itself
+    have hne : ∀ q ∈ ps, q ≠ p := by
+      intro q hq heq
+      subst heq
+      simp only [List.map_cons, List.map_append, List.nodup_append, List.nodup_cons, List.mem_map] at hnd
+      exact hnd.2.1.1 ⟨tgt q, ⟨q, hq, rfl⟩, rfl⟩
     have := ih (done ++ [tgt p])
       (fun q hq => hres q (List.mem_cons_of_mem _ hq))
       (by
         intro q hq x hx t ht
-        apply hind q (List.mem_cons_of_mem _ hq) x hx t
-        simp only [List.map_cons, List.mem_append, List.mem_cons, List.mem_singleton,
-          List.not_mem_nil, or_false] at ht ⊢
-        rcases ht with (h | h) | h
-        · exact Or.inl h
-        · exact Or.inr (Or.inl h)
-        · exact Or.inr (Or.inr h))
+        simp only [List.mem_append, List.mem_singleton] at ht
+        rcases ht with h | h
+        · exact hind q (List.mem_cons_of_mem _ hq) x hx t h
+        · subst h
+          intro heq
+          exact hpair q (List.mem_cons_of_mem _ hq) p List.mem_cons_self (hne q hq) (by rw [hx, heq]))
+      (fun a ha b hb hab => hpair a (List.mem_cons_of_mem _ ha) b (List.mem_cons_of_mem _ hb) hab)
       (by simpa [List.append_assoc] using hnd)
       (by
         intro t ht
@@ -382,18 +389,14 @@ theorem retainPass_independent {g : Graph} {s : Nat} {sc : Scope} (hs : g.scopes
 theorem imports_independent {g : Graph} {s : Nat} {sc : Scope} (hs : g.scopes[s]? = some sc)
     (tgt : Path → RName) (ps : List Path)
     (hres : ∀ p ∈ ps, ∃ r, resolveModulePart g s p = .ok r ∧ r.rest = [] ∧ r.decl.name = tgt p)
-    (hind : ∀ p ∈ ps, ∀ q ∈ ps, firstSeg p ≠ some (tgt q).ident)
+    (hind : ∀ p ∈ ps, ∀ q ∈ ps, p ≠ q → firstSeg p ≠ some (tgt q).ident)
     (hnd : (ps.map (fun p => (tgt p).ident)).Nodup)
     (hfresh : ∀ p ∈ ps, sc.imports.lookup (tgt p).ident = none) :
     imports g s ps = .ok (addImports g s (ps.map tgt)) := by
   have h := retainPass_independent hs tgt ps []
     hres
-    (by
-      intro p hp x hx t ht
-      simp only [List.nil_append, List.mem_map] at ht
-      obtain ⟨q, hq, rfl⟩ := ht
-      intro heq
-      exact hind p hp q hq (by rw [hx, heq]))
+    (by intro p _ x _ t ht; cases ht)
+    hind
     (by simpa [List.map_map, Function.comp_def] using hnd)
     (by
       intro t ht
